@@ -60,6 +60,27 @@ theorem pem_strict_roundtrip (k : PemKind) (der : Bytes) :
     chunksAux_flatten 64 (by decide) _ _ (Nat.le_refl _)
   simp only [hshape, if_true, hflat, b64Decode_b64Encode, Option.map_some]
 
+/-- **the private-key text is the envelope of the DER accessor, or there is neither**: whatever
+    `serialize_pem` returns decodes strictly to ("PRIVATE KEY", what `serialize_der` returns), and
+    it returns nothing exactly when `serialize_der` does not (a key held by a remote signer: both
+    panic) — never an envelope around bytes the DER accessor would not hand out -/
+theorem private_key_text_wraps_der_accessor (k : KeyHolder) :
+    (∀ t, k.serializePem = some t →
+      ∃ d, k.serializeDer = some d ∧ pemDecode t = some (PemKind.privateKey.label, d)) ∧
+    (k.serializePem = none ↔ k.serializeDer = none) := by
+  cases k with
+  | held doc =>
+    refine ⟨?_, by simp [KeyHolder.serializePem, KeyHolder.serializeDer]⟩
+    intro t ht
+    simp only [KeyHolder.serializePem, KeyHolder.serializeDer, Option.some.injEq] at ht
+    subst ht
+    exact ⟨doc, rfl, pem_strict_roundtrip .privateKey doc⟩
+  | remote =>
+    exact ⟨by simp [KeyHolder.serializePem, KeyHolder.serializeDer], by simp [KeyHolder.serializePem, KeyHolder.serializeDer]⟩
+
+example : (KeyHolder.held [48, 3, 2, 1, 0]).serializePem.isSome = true ∧
+    KeyHolder.remote.serializePem = none := by decide
+
 /-- base64 lines have exactly 64 characters except the last, which has 1..64 -/
 theorem pem_lines_64 (der : Bytes) : shapeOk 64 (chunks 64 (b64Encode der)) = true :=
   chunksAux_shape 64 (by decide) _ _ (Nat.le_refl _)
